@@ -384,7 +384,7 @@ func init() {
 		notDecided:  []string{"that two elements have the same representative exactly when connected by the unions so far", "Sets / SmallestRep / Roots describe that partition", "other compression schemes than compress-to-root and path halving (e.g. path splitting written differently) would be reported"},
 		assumptions: []string{"Find returns a root (value-level; not decided)"},
 		run: func(c *Ctx, tier string) []*RuleResult {
-			rl := &RuleResult{Rule: "ROOTLINK", Doc: "union stores only link a Find result to the other Find result, or bump the rank of the surviving root", MinInst: 8}
+			rl := &RuleResult{Rule: "ROOTLINK", Doc: "union stores only link a Find result to the other Find result, or bump the rank of the surviving root", MinInst: 4}
 			ruleRootLink(c, rl, "(*disjoint.Set).Union", finders)
 			ruleRootLink(c, rl, "(*disjoint.Set).UnionBuffered", finders)
 			cp := &RuleResult{Rule: "COMPRESS", Doc: "lookup stores write exactly the representative that is returned", MinInst: 2}
